@@ -77,3 +77,10 @@ Print Assumptions c10_recovery_converges_refuted_R5.
 Theorem c10_recovery_converges_refuted_R6 : refutes only_R6 witness_R6 = true.
 Proof. exact dev_R6_refutes. Qed.
 Print Assumptions c10_recovery_converges_refuted_R6.
+
+(* R7 (repaired in /repo by 0c944e8, no flag): a recovery recorded before the fix - the recovered block skipped its
+   initial continuous-check run, its sequences ran ungated, the plan ended Completed instead of Failed - is rejected by
+   the resumed automaton under every flag, and mon_converges (outcome clause) is false on it. *)
+Theorem c10_R7_before_fix_is_caught : caught witness_R7_before_fix = true.
+Proof. exact R7_before_fix_is_caught. Qed.
+Print Assumptions c10_R7_before_fix_is_caught.
